@@ -132,7 +132,8 @@ def splitBody (raw : Bytes) : Option (Bytes × Bytes) := splitFirst splitPattern
 
 inductive Err where
   | short     -- EOFError of a strict `BytesReader.read` / numpy.frombuffer on a wrong byte count
-  | decode    -- non-ASCII string, negative length word
+  | decode    -- non-ASCII string
+  | neglen    -- a length word ≥ 2^31 (negative as `>i`): what `read` does with a negative count is not modelled
   | shape     -- reshape failure
   | fuel
 deriving DecidableEq, Repr, Inhabited
@@ -149,7 +150,7 @@ def readLen (s : Bytes) : Except Err (Nat × Bytes) :=
   | .error e => .error e
   | .ok p =>
     if p.1.length ≠ w then .error .short
-    else if beNat p.1 ≥ 2147483648 then .error .decode
+    else if beNat p.1 ≥ 2147483648 then .error .neglen
     else .ok (beNat p.1, p.2)
 
 /-- `.astype(parser_dtype)` applied to the unsigned reading `n` of the wire bytes: wrap into the
